@@ -121,7 +121,13 @@ def cases_C17(rng, tier):
                  ("protected-ct", "CoseMac0", lambda x: b"\x84" + enc(B(head(5, 1) + b"\x03" + x)) + b"\xa0\xf6\x40"),
                  ("kty", "CoseKey", lambda x: head(5, 1) + b"\x01" + x), ("key-op", "CoseKey", lambda x: head(5, 2) + b"\x01\x01\x04\x81" + x),
                  ("key-alg", "CoseKey", lambda x: head(5, 2) + b"\x01\x01\x03" + x), ("claim-name", "ClaimsSet", lambda x: head(5, 1) + x + b"\x00"),
-                 ("kdf-alg", "CoseKdfContext", lambda x: b"\x84" + x + b"\x83\xf6\xf6\xf6\x83\xf6\xf6\xf6\x82\x00\x40"))
+                 ("kdf-alg", "CoseKdfContext", lambda x: b"\x84" + x + b"\x83\xf6\xf6\xf6\x83\xf6\xf6\xf6\x82\x00\x40"),
+                 ("kty-in-set", "CoseKeySet", lambda x: b"\x83\xa1\x01\x04\xa1\x01" + x + b"\xa1\x01\x01"),
+                 ("key-op-in-set", "CoseKeySet", lambda x: b"\x82\xa1\x01\x04\xa2\x01\x01\x04\x81" + x),
+                 ("key-alg-in-set", "CoseKeySet", lambda x: b"\x81\xa2\x01\x01\x03" + x),
+                 ("recipient-alg", "CoseMac", lambda x: b"\x85\x40\xa0\xf6\x40\x81\x83\x40\xa1\x01" + x + b"\xf6"),
+                 ("signer-crit", "CoseSign", lambda x: b"\x84\x40\xa0\xf6\x81\x83\x40\xa1\x02\x81" + x + b"\x40"),
+                 ("countersig-ct", "Header", lambda x: b"\xa1\x07\x83\x40\xa1\x03" + x + b"\x40"))
     pwin = list(range(-300, 300)) + [-65535, -65536, -65537, 10000, 11060, 11542, 11543, 65535]
     if tier != "quick": pwin = sorted(set(pwin) | set(range(-1000, 12000)))
     for name, ty, wrap in positions:
@@ -233,6 +239,18 @@ def cases_C15(rng, tier):
         keep = [c for c in out if c["fam"] in ("label", "nonce", "key-data-length", "label-encode") or c["fam"].startswith("extra-") or c["fam"].startswith("nested-range")]
         rest = [c for c in out if c["fam"] not in ("label", "nonce", "key-data-length", "label-encode") and not c["fam"].startswith("extra-") and not c["fam"].startswith("nested-range")]
         out = keep + rng.sample(rest, min(len(rest), 6000))
+    for n in sorted(set(ALG_REG + ALG_PRIV + [0, 1, -1 if -1 in ALG_REG else 1])):
+        h = d_header(alg=d_reg(1 if n in ALG_REG else 0, n))
+        for ty in ("CoseSign1", "CoseMac0", "CoseEncrypt0", "CoseRecipient"):
+            tail = {"CoseSign1": [NULL, B(b"")], "CoseMac0": [NULL, B(b"")], "CoseEncrypt0": [NULL], "CoseRecipient": [NULL, ('a', [])]}[ty]
+            for prot in (True, False):
+                d = ('a', [d_protected(None, h if prot else D_EMPTY_HEADER), D_EMPTY_HEADER if prot else h] + tail)
+                want = enc(pyspec.wire_value(ty, d))
+                out.append(case("encdec", ty, enc(d), fam="extra-built-alg", expect="ok %s ok %s" % (want.hex(), pyspec.show(pyspec.assign(ty, d)))))
+    for n in CF_REG[:8] + [0]:
+        h = d_header(ctype=d_reg(1, n))
+        d = ('a', [d_protected(None, h), D_EMPTY_HEADER, NULL, B(b"")])
+        out.append(case("encdec", "CoseSign1", enc(d), fam="extra-built-ct", expect="ok %s ok %s" % (enc(pyspec.wire_value("CoseSign1", d)).hex(), pyspec.show(pyspec.assign("CoseSign1", d)))))
     return out
 
 # ================================================================= C14
@@ -428,6 +446,9 @@ def single_field_headers():
             d_header(csigs=[d_signature(d_protected(None, D_EMPTY_HEADER), D_EMPTY_HEADER, bytes([i])) for i in (1, 2, 3)]),
             d_header(csigs=[d_signature(d_protected(None, D_EMPTY_HEADER), d_header(kid=bytes([i])), bytes([i])) for i in (4, 3, 2, 1)]),
             d_header(crit=[d_reg(1, 4), d_reg(1, 1), d_reg(2, "z"), d_reg(1, 2)]),
+            # fields holding their type's default-looking value are populated all the same
+            d_header(alg=d_reg(1, 0)), d_header(ctype=d_reg(1, 0)), d_header(crit=[d_reg(1, 0)]), d_header(kid=b"\x00"),
+            d_header(alg=d_reg(2, "")), d_header(rest=[(I(0), I(0))]), d_header(rest=[(T(""), NULL)]),
             d_header(rest=[(I(300), I(1)), (I(-1), I(2)), (T("b"), I(3)), (I(9), I(4)), (T("a"), I(5))])]
 
 def single_field_prots():
@@ -562,6 +583,16 @@ def cases_C03(rng, tier):
                     want = pyspec.sig_structure("CounterSignature", outer, ip, b"aad", b"payload")
                     out.append(case("helperhex", "countersig.tbs", msg, bytes([k]), b"aad", b"payload", fam="countersig-uses-wire-bytes",
                                     impl_only=True, expect="ok " + want.hex()))
+    wire_spellings = [b"", b"\xa0", b"\xbf\xff", b"\xb8\x00", b"\xa1\x01\x26", b"\xbf\x01\x26\xff", b"\xa1\x18\x01\x38\x06", b"\xa2\x04\x41\x6b\x01\x26"]
+    unprots = [M(), M((I(1), I(-3))), M((I(1), I(-6))), M((I(4), B(b"k")))]
+    for p in wire_spellings:
+        for u in unprots:
+            for style in (None, "nc"):
+                m1 = enc(A(B(p), u, B(b"pl"), B(b"sg")), rng if style else None, style="nobignum")
+                out.append(case("helperhex", "sign1.tbs_data", m1, b"aad", fam="decoded:sign1.tbs_data", expect="ok " + pyspec.sig_structure("CoseSign1", p, None, b"aad", b"pl").hex()))
+                out.append(case("helperhex", "sign1.verify_signature", m1, b"aad", fam="decoded:sign1.verify", expect="ok 7367 " + pyspec.sig_structure("CoseSign1", p, None, b"aad", b"pl").hex()))
+                ms = enc(A(B(b"\xa0"), M(), B(b"pl"), A(A(B(p), u, B(b"s0")))), rng if style else None, style="nobignum")
+                out.append(case("helperhex", "sign.verify_signature", ms, b"\x00", b"aad", fam="decoded:sign.verify", expect="ok 7330 " + pyspec.sig_structure("CoseSignature", b"\xa0", p, b"aad", b"pl").hex()))
     return out
 
 def post_injective(cases, impl):
@@ -635,6 +666,15 @@ def cases_C04(rng, tier):
             out.append(case("build", bt, enc(('a', ops)), fam="create_tag", check=lambda c, o, w=want: None if ("h" + w.hex()) in o else "tag created from other bytes than the MAC_structure"))
         else:
             out.append(case("build", bt, enc(('a', ops)), fam="create_tag-nopayload", expect="panic", may_panic=True))
+    wire_spellings = [b"", b"\xa0", b"\xbf\xff", b"\xb8\x00", b"\xa1\x01\x26", b"\xbf\x01\x26\xff", b"\xa1\x18\x01\x38\x06", b"\xa2\x04\x41\x6b\x01\x26"]
+    unprots = [M(), M((I(1), I(-3))), M((I(1), I(-6))), M((I(4), B(b"k")))]
+    for p in wire_spellings:
+        for u in unprots:
+            for style in (None, "nc"):
+                m0 = enc(A(B(p), u, B(b"pl"), B(b"tg")), rng if style else None, style="nobignum")
+                m1 = enc(A(B(p), u, B(b"pl"), B(b"tg"), A(A(B(b"\xa0"), M(), NULL))), rng if style else None, style="nobignum")
+                out.append(case("helperhex", "mac0.verify_tag", m0, b"aad", fam="decoded:mac0.verify_tag", expect="ok 7467 " + pyspec.mac_structure("CoseMac0", p, b"aad", b"pl").hex()))
+                out.append(case("helperhex", "mac.verify_tag", m1, b"aad", fam="decoded:mac.verify_tag", expect="ok 7467 " + pyspec.mac_structure("CoseMac", p, b"aad", b"pl").hex()))
     return out
 
 def cases_C05(rng, tier):
@@ -724,6 +764,17 @@ def cases_C05(rng, tier):
             want = k + bytes([len(pt) % 256]) + pt + pyspec.enc_structure(ctx, pb, aad)
             out.append(case("build", bt, enc(('a', ops)), fam="create_ciphertext",
                             check=lambda c, o, w=want: None if ("h" + w.hex()) in o else "ciphertext created with other additional data than the Enc_structure"))
+    wire_spellings = [b"", b"\xa0", b"\xbf\xff", b"\xb8\x00", b"\xa1\x01\x26", b"\xbf\x01\x26\xff", b"\xa1\x18\x01\x38\x06", b"\xa2\x04\x41\x6b\x01\x26"]
+    unprots = [M(), M((I(1), I(-3))), M((I(1), I(-6))), M((I(4), B(b"k")))]
+    for p in wire_spellings:
+        for u in unprots:
+            for style in (None, "nc"):
+                e0 = enc(A(B(p), u, B(b"ct")), rng if style else None, style="nobignum")
+                e1 = enc(A(B(b"\xa0"), M(), B(b"ct"), A(A(B(p), u, B(b"ct")))), rng if style else None, style="nobignum")
+                out.append(case("helperhex", "encrypt0.decrypt", e0, b"aad", fam="decoded:encrypt0.decrypt", expect="ok 6374 " + pyspec.enc_structure("CoseEncrypt0", p, b"aad").hex()))
+                out.append(case("helperhex", "encrypt.decrypt", enc(A(B(p), u, B(b"ct"), A())), b"aad", fam="decoded:encrypt.decrypt", expect="ok 6374 " + pyspec.enc_structure("CoseEncrypt", p, b"aad").hex()))
+                for rc in ("EncRecipient", "MacRecipient", "RecRecipient"):
+                    out.append(case("helperhex", "recipient.decrypt", e0, tstr(rc), b"aad", fam="decoded:recipient.decrypt", expect="ok 6374 " + pyspec.enc_structure(rc, p, b"aad").hex()))
     return out
 
 
@@ -792,6 +843,16 @@ def cases_C07(rng, tier):
                 out.append(case("rt", ty, b, fam="depth-sweep-rt", key=(ty, b)))
                 if ty in TAGGED_TYPES:
                     out.append(case("dectag", ty, head(6, MSG_TAG[ty]) + b, fam="depth-sweep-tagged"))
+    for d in list(range(0, 19)):
+        for form in ("single", "list", "mixed", "list2"):
+            hb = nested_header(d, form)
+            for ty, b in (("Header", hb), ("CoseSign1", enc(A(B(b""), ("raw", hb), NULL, B(b"")))), ("CoseSign1", enc(A(B(hb), M(), NULL, B(b"")))),
+                          ("CoseSign", enc(A(B(b""), M(), NULL, A(A(B(b""), ("raw", hb), B(b"")))))), ("CoseMac", enc(A(B(b""), M(), NULL, B(b""), A(A(B(b""), ("raw", hb), NULL)))))):
+                out.append(case("dec", ty, b, fam="dec", key=(ty, b)))
+                out.append(case("rt", ty, b, fam="rt", key=(ty, b)))
+                if ty in TAGGED_TYPES:
+                    out.append(case("rttag", ty, head(6, MSG_TAG[ty]) + b, fam="rttag", key=(ty, head(6, MSG_TAG[ty]) + b)))
+                    out.append(case("dectag", ty, head(6, MSG_TAG[ty]) + b, fam="dec", key=(ty, head(6, MSG_TAG[ty]) + b)))
     return out
 
 def post_C07(cases, impl):
@@ -1588,18 +1649,19 @@ def cases_C02(rng, tier):
     empties = [b"", b"\xa0", b"\xbf\xff", b"\xb8\x00", b"\xb9\x00\x00", b"\xba\x00\x00\x00\x00", b"\xbb" + b"\x00" * 8]
     small = [enc(M((I(1), I(-7)))), b"\xbf\x01\x26\xff", b"\xa1\x18\x01\x38\x06", b"\xa1\x04\x5f\x41\x31\x41\x32\xff"]
     for p in empties + small:
+      for U in (M(), M((I(1), I(-3))), M((I(1), I(-6))), M((I(1), I(-25)), (I(4), B(b"k")))):
         for q in (b"", b"\xa0", small[1]):
             carriers = [
-                ("CoseSign1", A(B(p), M(), B(b"pl"), B(b"sg")), [p]),
-                ("CoseMac0", A(B(p), M(), B(b"pl"), B(b"tg")), [p]),
-                ("CoseEncrypt0", A(B(p), M(), B(b"ct")), [p]),
-                ("CoseSignature", A(B(p), M(), B(b"sg")), [p]),
-                ("CoseRecipient", A(B(p), M(), NULL, A(A(B(q), M(), NULL))), [p, q]),
-                ("CoseSign", A(B(q), M(), B(b"pl"), A(A(B(p), M(), B(b"s1")), A(B(q), M(), B(b"s2")))), [q, p, q]),
-                ("CoseEncrypt", A(B(q), M(), B(b"ct"), A(A(B(p), M(), NULL, A(A(B(p), M(), NULL))))), [q, p, p]),
-                ("CoseMac", A(B(p), M(), B(b"pl"), B(b"t"), A(A(B(q), M(), NULL), A(B(p), M(), NULL))), [p, q, p]),
-                ("CoseSign1", A(B(q), M((I(7), A(B(p), M(), B(b"cs")))), NULL, B(b"")), [q, p]),
-                ("CoseSign1", A(B(q), M((I(7), A(A(B(p), M(), B(b"c1")), A(B(q), M(), B(b"c2"))))), NULL, B(b"")), [q, p, q]),
+                ("CoseSign1", A(B(p), U, B(b"pl"), B(b"sg")), [p]),
+                ("CoseMac0", A(B(p), U, B(b"pl"), B(b"tg")), [p]),
+                ("CoseEncrypt0", A(B(p), U, B(b"ct")), [p]),
+                ("CoseSignature", A(B(p), U, B(b"sg")), [p]),
+                ("CoseRecipient", A(B(p), U, NULL, A(A(B(q), U, NULL))), [p, q]),
+                ("CoseSign", A(B(q), U, B(b"pl"), A(A(B(p), U, B(b"s1")), A(B(q), U, B(b"s2")))), [q, p, q]),
+                ("CoseEncrypt", A(B(q), U, B(b"ct"), A(A(B(p), U, NULL, A(A(B(p), U, NULL))))), [q, p, p]),
+                ("CoseMac", A(B(p), U, B(b"pl"), B(b"t"), A(A(B(q), U, NULL), A(B(p), U, NULL))), [p, q, p]),
+                ("CoseSign1", A(B(q), M((I(7), A(B(p), U, B(b"cs")))), NULL, B(b"")), [q, p]),
+                ("CoseSign1", A(B(q), M((I(7), A(A(B(p), U, B(b"c1")), A(B(q), U, B(b"c2"))))), NULL, B(b"")), [q, p, q]),
                 ("SuppPubInfo", A(I(128), B(p)), [p]),
                 ("SuppPubInfo", A(I(128), B(p), B(b"o")), [p]),
                 ("CoseKdfContext", A(I(1), A(NULL, NULL, NULL), A(NULL, NULL, NULL), A(I(128), B(p))), [p]),
